@@ -267,6 +267,9 @@ func nonNegative(v *Val, conds []Cond) bool {
 			return nonNegative(in, conds)
 		}
 	case "call":
+		if v.Name == "copy" {
+			return true // the number of elements copied
+		}
 		if v.Name == "min" || v.Name == "max" {
 			all, any := true, false
 			for _, a := range v.Args {
@@ -720,6 +723,8 @@ func (s *safety) iterationMinBytes(arm *Arm) int64 {
 		case EvReadInt:
 			if sz, ok := fixedSize(e.IntType); ok && sz > 0 {
 				n += sz
+			} else if ok && sz == -1 && numberTypeSet(e.IntType) {
+				n++ // generic body: some fixed-size number type, at least one byte
 			}
 		case EvReadBytes:
 			if c, ok := affOf(e.Size).IsConst(); ok && c > 0 {
